@@ -87,6 +87,22 @@ def run(pid, tier, seed, replay=None):
                     ch = "z"
                 s += ch
             items.append({"id": len(items), "seg": s, "where": rng.choice(uni.POSITIONS), "convert": conv, "pred_us": None})
+        # long texts (an ordinary non-Latin sentence has dozens of non-ASCII characters) and Unicode white space
+        spaces = [0xA0, 0x1680, 0x2002, 0x2003, 0x2009, 0x200A, 0x2028, 0x2029, 0x202F, 0x205F, 0x3000]
+        scripts = [list(range(0x391, 0x3CA)), list(range(0x410, 0x450)), list(range(0x3041, 0x3097)), list(range(0x4E00, 0x4F00)), list(range(0x1F600, 0x1F650))]
+        for k in range(plan["strings"] // 4):
+            conv = rng.random() < 0.5
+            sc = rng.choice(scripts)
+            n = rng.choice([31, 32, 33, 34, 40, 64, 65, 100, 129, 257]) if k % 2 == 0 else rng.randint(3, 10)
+            s = ""
+            for _k in range(n):
+                r_ = rng.random()
+                ch = chr(rng.choice(spaces)) if r_ < (0.15 if k % 2 == 0 else 0.5) else (chr(rng.choice(sc)) if r_ < 0.9 else rng.choice("abc XYZ,.-"))
+                if ch in FORBIDDEN_CONV or ch == "\xa2" and False:
+                    ch = "z"
+                s += ch
+            s = s.strip(" ") or "z"
+            items.append({"id": len(items), "seg": s, "where": uni.POSITIONS[k % len(uni.POSITIONS)], "convert": conv, "pred_us": None})
         recs = pmap(uni.run_position, items, chunk=8)
         nd = 0
         for it, r in zip(items, recs):
